@@ -4,7 +4,7 @@
    the real library; after every step the description of what each live client emits must equal
    what the recording origin captured. *)
 From Coq Require Import List Arith Bool.
-From ReqV Require Export Model.Settings Model.ReExec Model.LiveSel Model.Handshake Gen.CloneTable.
+From ReqV Require Export Model.Settings Model.ReExec Model.LiveSel Model.Handshake Model.PoolKey Model.DumpCtx Gen.CloneTable.
 Import ListNotations.
 
 Record c19_step := Step {
@@ -25,7 +25,9 @@ Inductive c19_case :=
 | CProg (l : list c19_step)
 | CReexec (l : list rx_step)
 | CLive (l : list lstep)
-| CHandshake (l : list hsstep).   (* TLS handshake option: setter order x Clone *)         (* settings changed after use, live TLS origin: protocol selection *)
+| CHandshake (l : list hsstep)
+| CPool (l : list pstep)          (* proxy setting changed after use: HTTP/1.1 pool key *)
+| CDump (l : list dstep).         (* request-level dump with inherited contexts *)   (* TLS handshake option: setter order x Clone *)         (* settings changed after use, live TLS origin: protocol selection *)
 
 Fixpoint leqb (a b : list nat) : bool :=
   match a, b with
@@ -87,4 +89,6 @@ Definition c19_check (c : c19_case) : bool :=
   | CReexec l => rx_run rq0 l
   | CLive l => live_run gen_guard [] l
   | CHandshake l => hs_run gen_hs [] l
+  | CPool l => pool_run gen_key [] l
+  | CDump l => dump_run gen_dump [] l
   end.
